@@ -3,6 +3,7 @@
 mod attr;
 mod bits;
 mod der;
+mod dynval;
 mod front;
 mod inttype;
 mod names;
@@ -14,6 +15,7 @@ mod tags;
 mod tok;
 mod uper;
 mod util;
+mod zoo;
 
 use std::io::{BufRead, Write};
 
@@ -50,5 +52,7 @@ fn main() {
     for line in stdin.lock().lines() {
         let line = line.expect("stdin");
         writeln!(out, "{}", answer(&line)).unwrap();
+        // flushed per line so that an abort of the process is attributed to the right request
+        out.flush().unwrap();
     }
 }
